@@ -408,5 +408,367 @@ theorem prev_step (d : Db K V) (hok : NodesOk d.nodes) (p : CPos) (hp : CurOk d.
           rw [hf]
           exact take_succ_of_getElem? hr1'
 
+/-! ### relations between a position before and after a mutation -/
+
+/-- after an insertion (`P` is false exactly on the newborn): the position is usable and, the newborn
+    filtered out, the same records lie ahead in both directions -/
+def InsRel (P : K × V → Bool) (ns ns' : List (Node K V)) (p p' : CPos) : Prop :=
+  CurOk ns' p' ∧ (aheadN ns' p').filter P = aheadN ns p ∧ (aheadP ns' p').filter P = aheadP ns p
+
+/-- after a removal (`P` is false exactly on the removed record): the position is usable and what lies
+    ahead is what lay ahead without the removed record -/
+def DelRel (P : K × V → Bool) (ns ns' : List (Node K V)) (p p' : CPos) : Prop :=
+  CurOk ns' p' ∧ aheadN ns' p' = (aheadN ns p).filter P ∧ aheadP ns' p' = (aheadP ns p).filter P
+
+section Rel
+variable {P : K × V → Bool} {ns ns' : List (Node K V)} {l1 l2 : List (K × V)} {x : K × V}
+
+theorem insRel_at (hf : flatten ns = l1 ++ l2) (hf' : flatten ns' = l1 ++ x :: l2) (hx : P x = false)
+    (hl : ∀ r ∈ l1 ++ l2, P r = true) {i j i' j' : Nat} {s : Int} (hc : CurOk ns' (.at i' j' s))
+    (h : (flatIdx ns i j ≥ l1.length → flatIdx ns' i' j' = flatIdx ns i j + 1) ∧
+      (flatIdx ns i j < l1.length → flatIdx ns' i' j' = flatIdx ns i j)) :
+    InsRel P ns ns' (.at i j s) (.at i' j' s) := by
+  have h : flatIdx ns' i' j' = if flatIdx ns i j ≥ l1.length then flatIdx ns i j + 1 else flatIdx ns i j := by
+    split
+    · exact h.1 (by assumption)
+    · exact h.2 (by omega)
+  have := ins_flat hx hl (.at (flatIdx ns i j) s)
+  refine ⟨hc, ?_, ?_⟩
+  · rw [aheadN_flat, aheadN_flat, hf, hf', toFlat, toFlat, h]; exact this.1
+  · rw [aheadP_flat, aheadP_flat, hf, hf', toFlat, toFlat, h]; exact this.2
+
+theorem insRel_pseudo (hf : flatten ns = l1 ++ l2) (hf' : flatten ns' = l1 ++ x :: l2) (hx : P x = false)
+    (hl : ∀ r ∈ l1 ++ l2, P r = true) {p : CPos} (hp : ∀ i j s, p ≠ .at i j s) : InsRel P ns ns' p p := by
+  cases p with
+  | «at» i j s => exact absurd rfl (hp i j s)
+  | head =>
+    have := ins_flat hx hl .head
+    exact ⟨trivial, by rw [aheadN_flat, aheadN_flat, hf, hf']; exact this.1, rfl⟩
+  | tail =>
+    have := ins_flat hx hl .tail
+    exact ⟨trivial, rfl, by rw [aheadP_flat, aheadP_flat, hf, hf']; exact this.2⟩
+  | void => exact ⟨trivial, rfl, rfl⟩
+
+theorem delRel_pseudo (hf : flatten ns = l1 ++ x :: l2) (hf' : flatten ns' = l1 ++ l2) (hx : P x = false)
+    (hl : ∀ r ∈ l1 ++ l2, P r = true) {p : CPos} (hp : ∀ i j s, p ≠ .at i j s) : DelRel P ns ns' p p := by
+  have hall : ((l1 ++ x :: l2)).filter P = l1 ++ l2 := by
+    have := drop_ins_le hx hl (g := 0) (Nat.zero_le _)
+    simpa using this
+  cases p with
+  | «at» i j s => exact absurd rfl (hp i j s)
+  | head => exact ⟨trivial, by simp only [aheadN]; rw [hf, hf', hall], rfl⟩
+  | tail => exact ⟨trivial, rfl, by simp only [aheadP]; rw [hf, hf', hall]⟩
+  | void => exact ⟨trivial, rfl, rfl⟩
+
+theorem delRel_lt (hf : flatten ns = l1 ++ x :: l2) (hf' : flatten ns' = l1 ++ l2) (hx : P x = false)
+    (hl : ∀ r ∈ l1 ++ l2, P r = true) {i j i' j' : Nat} {s : Int} (hc : CurOk ns' (.at i' j' s))
+    (h1 : flatIdx ns i j < l1.length) (h2 : flatIdx ns' i' j' = flatIdx ns i j) :
+    DelRel P ns ns' (.at i j s) (.at i' j' s) := by
+  have := del_flat hx hl (.at (flatIdx ns i j) s) (.at (flatIdx ns i j) s) (fun h => by cases h)
+    (fun h => by cases h) (fun h => by cases h) (fun f s' h _ => by cases h; rfl)
+    (fun f s' h h' => by cases h; omega) (fun s' h => by have := (FPos.at.inj h).1; omega)
+  refine ⟨hc, ?_, ?_⟩
+  · rw [aheadN_flat, aheadN_flat, hf, hf', toFlat, toFlat, h2]; exact this.1
+  · rw [aheadP_flat, aheadP_flat, hf, hf', toFlat, toFlat, h2]; exact this.2
+
+theorem delRel_gt (hf : flatten ns = l1 ++ x :: l2) (hf' : flatten ns' = l1 ++ l2) (hx : P x = false)
+    (hl : ∀ r ∈ l1 ++ l2, P r = true) {i j i' j' : Nat} {s : Int} (hc : CurOk ns' (.at i' j' s))
+    (h1 : flatIdx ns i j > l1.length) (h2 : flatIdx ns' i' j' + 1 = flatIdx ns i j) :
+    DelRel P ns ns' (.at i j s) (.at i' j' s) := by
+  have e : flatIdx ns' i' j' = flatIdx ns i j - 1 := by omega
+  have := del_flat hx hl (.at (flatIdx ns i j) s) (.at (flatIdx ns i j - 1) s) (fun h => by cases h)
+    (fun h => by cases h) (fun h => by cases h) (fun f s' h h' => by cases h; omega)
+    (fun f s' h h' => by cases h; rfl) (fun s' h => by have := (FPos.at.inj h).1; omega)
+  refine ⟨hc, ?_, ?_⟩
+  · rw [aheadN_flat, aheadN_flat, hf, hf', toFlat, toFlat, e]; exact this.1
+  · rw [aheadP_flat, aheadP_flat, hf, hf', toFlat, toFlat, e]; exact this.2
+
+theorem delRel_eq (hf : flatten ns = l1 ++ x :: l2) (hf' : flatten ns' = l1 ++ l2) (hx : P x = false)
+    (hl : ∀ r ∈ l1 ++ l2, P r = true) {i j : Nat} {s : Int} {p' : CPos} (hc : CurOk ns' p')
+    (h1 : flatIdx ns i j = l1.length) (hN : aheadN ns' p' = (flatten ns').drop l1.length)
+    (hP : aheadP ns' p' = (flatten ns').take l1.length) :
+    DelRel P ns ns' (.at i j s) p' := by
+  rw [hf'] at hN hP
+  have := del_flat hx hl (.at (flatIdx ns i j) s) (.at l1.length 1) (fun h => by cases h)
+    (fun h => by cases h) (fun h => by cases h) (fun f s' h h' => by cases h; omega)
+    (fun f s' h h' => by cases h; omega) (fun s' _ => ⟨by simp [aheadNF], by simp [aheadPF]⟩)
+  refine ⟨hc, ?_, ?_⟩
+  · rw [hN, aheadN_flat ns, hf, toFlat, ← this.1]; simp [aheadNF]
+  · rw [hP, aheadP_flat ns, hf, toFlat, ← this.2]; simp [aheadPF]
+
+end Rel
+
+/-! ### positions in `pre ++ rest` -/
+
+theorem offs_add (pre rest : List (Node K V)) (k : Nat) :
+    offs (pre ++ rest) (pre.length + k) = (flatten pre).length + offs rest k := by
+  rw [offs_right (Nat.le_add_right _ _), Nat.add_sub_cancel_left]
+
+theorem offs_mid (pre rest : List (Node K V)) : offs (pre ++ rest) pre.length = (flatten pre).length := by
+  have := offs_add pre rest 0; simpa using this
+
+theorem curOk_add (pre rest : List (Node K V)) (k j : Nat) (s : Int) :
+    CurOk (pre ++ rest) (.at (pre.length + k) j s) ↔ CurOk rest (.at k j s) := by
+  simp only [CurOk, List.getElem?_append_right (Nat.le_add_right _ _), Nat.add_sub_cancel_left]
+
+theorem curOk_mid (pre post : List (Node K V)) (n : Node K V) (j : Nat) (s : Int) :
+    CurOk (pre ++ n :: post) (.at pre.length j s) ↔ j < n.recs.length := by
+  have := curOk_add pre (n :: post) 0 j s
+  simp only [Nat.add_zero] at this
+  rw [this]; simp [CurOk]
+
+theorem curOk_left {pre : List (Node K V)} (rest : List (Node K V)) {i j : Nat} {s : Int} (h : i < pre.length) :
+    CurOk (pre ++ rest) (.at i j s) ↔ CurOk pre (.at i j s) := by
+  simp only [CurOk, List.getElem?_append_left h]
+
+theorem curOk_cons_zero (n : Node K V) (ns : List (Node K V)) (j : Nat) (s : Int) :
+    CurOk (n :: ns) (.at 0 j s) ↔ j < n.recs.length := by simp [CurOk]
+
+theorem curOk_cons_succ (n : Node K V) (ns : List (Node K V)) (i j : Nat) (s : Int) :
+    CurOk (n :: ns) (.at (i + 1) j s) ↔ CurOk ns (.at i j s) := by simp [CurOk]
+
+/-- a usable position ends before the end of the chain -/
+theorem flatIdx_lt {ns : List (Node K V)} {i j : Nat} {s : Int} (h : CurOk ns (.at i j s)) :
+    flatIdx ns i j < (flatten ns).length := by
+  obtain ⟨nd, hn, hj⟩ := h
+  have h1 := offs_succ hn
+  have h2 := offs_le ns (i + 1)
+  simp only [flatIdx]; omega
+
+/-- the three regions of a usable position relative to node `pre.length` -/
+theorem regions {pre post : List (Node K V)} {lower : Node K V} {i j : Nat} {s : Int}
+    (h : CurOk (pre ++ lower :: post) (.at i j s)) :
+    (i < pre.length ∧ CurOk pre (.at i j s) ∧ offs pre i + j < (flatten pre).length) ∨
+    (i = pre.length ∧ j < lower.recs.length) ∨
+    (∃ m, i = pre.length + (m + 1) ∧ CurOk post (.at m j s)) := by
+  rcases Nat.lt_trichotomy i pre.length with hi | hi | hi
+  · left
+    have hc := (curOk_left _ hi).1 h
+    exact ⟨hi, hc, flatIdx_lt hc⟩
+  · right; left
+    subst hi
+    exact ⟨rfl, (curOk_mid pre post lower j s).1 h⟩
+  · right; right
+    obtain ⟨m, rfl⟩ : ∃ m, i = pre.length + (m + 1) := ⟨i - pre.length - 1, by omega⟩
+    exact ⟨m, rfl, (curOk_cons_succ _ _ _ _ _).1 ((curOk_add pre _ _ j s).1 h)⟩
+
+/-! ### the fix-ups, one by one -/
+
+theorem insertAt_length {α : Type} (l : List α) (i : Nat) (x : α) (h : i ≤ l.length) :
+    (l.take i ++ x :: l.drop i).length = l.length + 1 := by
+  simp only [List.length_append, List.length_take, List.length_cons, List.length_drop]; omega
+
+/-- `fixAdd`: a record inserted at slot `idx` of node `pre.length` -/
+theorem fixAdd_rel {P : K × V → Bool} {pre post : List (Node K V)} {lower : Node K V} {kv : K × V} {idx : Nat}
+    (hidx : idx ≤ lower.recs.length) (hx : P kv = false)
+    (hl : ∀ r ∈ flatten (pre ++ lower :: post), P r = true) (p : CPos) (hp : CurOk (pre ++ lower :: post) p) :
+    InsRel P (pre ++ lower :: post) (pre ++ { lower with recs := insertAt lower.recs idx kv } :: post)
+      p (fixAdd pre.length idx p) := by
+  have hf := flatten_split pre post lower idx
+  have hf' : flatten (pre ++ { lower with recs := insertAt lower.recs idx kv } :: post) =
+      (flatten pre ++ lower.recs.take idx) ++ kv :: (lower.recs.drop idx ++ flatten post) := by
+    simp only [flatten_append, flatten_cons, insertAt, List.append_assoc, List.cons_append]
+  rw [hf] at hl
+  have hF : (flatten pre ++ lower.recs.take idx).length = (flatten pre).length + idx := by
+    simp only [List.length_append, List.length_take]; omega
+  have hlen : (insertAt lower.recs idx kv).length = lower.recs.length + 1 := insertAt_length _ _ _ hidx
+  cases p with
+  | head => exact insRel_pseudo hf hf' hx hl (fun _ _ _ h => by cases h)
+  | tail => exact insRel_pseudo hf hf' hx hl (fun _ _ _ h => by cases h)
+  | void => exact insRel_pseudo hf hf' hx hl (fun _ _ _ h => by cases h)
+  | «at» i j s =>
+    rcases regions hp with ⟨hi, hc, hlt⟩ | ⟨rfl, hj⟩ | ⟨m, rfl, hc⟩
+    · have e : fixAdd pre.length idx (.at i j s) = .at i j s := by
+        simp only [fixAdd]; rw [if_neg (by omega)]
+      rw [e]
+      refine insRel_at hf hf' hx hl ((curOk_left _ hi).2 hc) ?_
+      constructor <;> intro h <;> simp only [hF, flatIdx, offs_left (Nat.le_of_lt hi)] at h ⊢ <;> omega
+    · by_cases hge : j ≥ idx
+      · have e : fixAdd pre.length idx (.at pre.length j s) = .at pre.length (j + 1) s := by
+          simp only [fixAdd]; rw [if_pos ⟨trivial, hge⟩]
+        rw [e]
+        refine insRel_at hf hf' hx hl ((curOk_mid _ _ _ _ _).2 (by simp only [hlen]; omega)) ?_
+        constructor <;> intro h <;> simp only [hF, flatIdx, offs_mid] at h ⊢ <;> omega
+      · have e : fixAdd pre.length idx (.at pre.length j s) = .at pre.length j s := by
+          simp only [fixAdd]; rw [if_neg (by omega)]
+        rw [e]
+        refine insRel_at hf hf' hx hl ((curOk_mid _ _ _ _ _).2 (by simp only [hlen]; omega)) ?_
+        constructor <;> intro h <;> simp only [hF, flatIdx, offs_mid] at h ⊢ <;> omega
+    · have e : fixAdd pre.length idx (.at (pre.length + (m + 1)) j s) = .at (pre.length + (m + 1)) j s := by
+        simp only [fixAdd]; rw [if_neg (by omega)]
+      rw [e]
+      refine insRel_at hf hf' hx hl ((curOk_add _ _ _ _ _).2 ((curOk_cons_succ _ _ _ _ _).2 hc)) ?_
+      constructor <;> intro h <;> simp only [hF, flatIdx, offs_add, offs_cons_succ, hlen] at h ⊢ <;> omega
+
+/-- `fixFront`: a one-record node put in front of the chain -/
+theorem fixFront_rel {P : K × V → Bool} {ns : List (Node K V)} {kv : K × V} (lvl : Nat)
+    (hx : P kv = false) (hl : ∀ r ∈ flatten ns, P r = true) (p : CPos) (hp : CurOk ns p) :
+    InsRel P ns (⟨lvl, [kv]⟩ :: ns) p (fixFront p) := by
+  have hf : flatten ns = [] ++ flatten ns := rfl
+  have hf' : flatten (⟨lvl, [kv]⟩ :: ns) = [] ++ kv :: flatten ns := by simp
+  cases p with
+  | head => exact insRel_pseudo hf hf' hx hl (fun _ _ _ h => by cases h)
+  | tail => exact insRel_pseudo hf hf' hx hl (fun _ _ _ h => by cases h)
+  | void => exact insRel_pseudo hf hf' hx hl (fun _ _ _ h => by cases h)
+  | «at» i j s =>
+    simp only [fixFront]
+    refine insRel_at hf hf' hx hl ((curOk_cons_succ _ _ _ _ _).2 hp) ?_
+    constructor <;> intro h <;> simp only [flatIdx, offs_cons_succ, List.length_cons, List.length_nil] at h ⊢ <;> omega
+
+/-- `fixSplit _ false`: a one-record node put after node `pre.length` -/
+theorem fixSplitNew_rel {P : K × V → Bool} {pre post : List (Node K V)} {lower : Node K V} {kv : K × V} (lvl : Nat)
+    (hx : P kv = false) (hl : ∀ r ∈ flatten (pre ++ lower :: post), P r = true) (p : CPos)
+    (hp : CurOk (pre ++ lower :: post) p) :
+    InsRel P (pre ++ lower :: post) (pre ++ lower :: ⟨lvl, [kv]⟩ :: post) p (fixSplit pre.length false p) := by
+  have hf : flatten (pre ++ lower :: post) = (flatten pre ++ lower.recs) ++ flatten post := by simp
+  have hf' : flatten (pre ++ lower :: ⟨lvl, [kv]⟩ :: post) = (flatten pre ++ lower.recs) ++ kv :: flatten post := by
+    simp
+  rw [hf] at hl
+  cases p with
+  | head => exact insRel_pseudo hf hf' hx hl (fun _ _ _ h => by cases h)
+  | tail => exact insRel_pseudo hf hf' hx hl (fun _ _ _ h => by cases h)
+  | void => exact insRel_pseudo hf hf' hx hl (fun _ _ _ h => by cases h)
+  | «at» i j s =>
+    rcases regions hp with ⟨hi, hc, hlt⟩ | ⟨rfl, hj⟩ | ⟨m, rfl, hc⟩
+    · have e : fixSplit pre.length false (.at i j s) = .at i j s := by
+        simp only [fixSplit]; rw [if_neg (by omega), if_neg (by omega)]
+      rw [e]
+      refine insRel_at hf hf' hx hl ((curOk_left _ hi).2 hc) ?_
+      constructor <;> intro h <;> simp only [flatIdx, offs_left (Nat.le_of_lt hi), List.length_append] at h ⊢ <;> omega
+    · have e : fixSplit pre.length false (.at pre.length j s) = .at pre.length j s := by
+        simp [fixSplit]
+      rw [e]
+      refine insRel_at hf hf' hx hl ((curOk_mid _ _ _ _ _).2 hj) ?_
+      constructor <;> intro h <;> simp only [flatIdx, offs_mid, List.length_append] at h ⊢ <;> omega
+    · have e : fixSplit pre.length false (.at (pre.length + (m + 1)) j s) = .at (pre.length + (m + 1 + 1)) j s := by
+        simp only [fixSplit]; rw [if_neg (by omega), if_pos (by omega)]; rfl
+      rw [e]
+      refine insRel_at hf hf' hx hl
+        ((curOk_add _ _ _ _ _).2 ((curOk_cons_succ _ _ _ _ _).2 ((curOk_cons_succ _ _ _ _ _).2 hc))) ?_
+      constructor <;> intro h <;> simp only [flatIdx, offs_add, offs_cons_succ, List.length_append, List.length_cons, List.length_nil] at h ⊢ <;> omega
+
+/-- equal flat views give equal `aheadN` / `aheadP` -/
+theorem ahead_eq_of_flat {ns ns' : List (Node K V)} {p p' : CPos} (hf : flatten ns' = flatten ns)
+    (ht : toFlat ns' p' = toFlat ns p) : aheadN ns' p' = aheadN ns p ∧ aheadP ns' p' = aheadP ns p := by
+  rw [aheadN_flat, aheadN_flat, aheadP_flat, aheadP_flat, hf, ht]; exact ⟨rfl, rfl⟩
+
+/-- `fixSplit _ true`: node `pre.length` cut at the pivot; every cursor keeps its record -/
+theorem fixSplitMove_rel {pre post : List (Node K V)} {lower : Node K V} (lvl : Nat) (p : CPos)
+    (hp : CurOk (pre ++ lower :: post) p) :
+    let ns' := pre ++ { lower with recs := lower.recs.take pivot } :: ⟨lvl, lower.recs.drop pivot⟩ :: post
+    CurOk ns' (fixSplit pre.length true p) ∧
+    aheadN ns' (fixSplit pre.length true p) = aheadN (pre ++ lower :: post) p ∧
+    aheadP ns' (fixSplit pre.length true p) = aheadP (pre ++ lower :: post) p := by
+  intro ns'
+  have hf : flatten ns' = flatten (pre ++ lower :: post) := by
+    simp only [ns', flatten_append, flatten_cons]
+    rw [← List.append_assoc (lower.recs.take pivot), List.take_append_drop]
+  cases p with
+  | head => exact ⟨trivial, ahead_eq_of_flat hf rfl⟩
+  | tail => exact ⟨trivial, ahead_eq_of_flat hf rfl⟩
+  | void => exact ⟨trivial, ahead_eq_of_flat hf rfl⟩
+  | «at» i j s =>
+    rcases regions hp with ⟨hi, hc, hlt⟩ | ⟨rfl, hj⟩ | ⟨m, rfl, hc⟩
+    · have e : fixSplit pre.length true (.at i j s) = .at i j s := by
+        simp only [fixSplit]; rw [if_neg (by omega), if_neg (by omega)]
+      rw [e]
+      refine ⟨(curOk_left _ hi).2 hc, ahead_eq_of_flat hf ?_⟩
+      simp only [toFlat, flatIdx, ns', offs_left (Nat.le_of_lt hi)]
+    · by_cases hge : j ≥ pivot
+      · have e : fixSplit pre.length true (.at pre.length j s) = .at (pre.length + 1) (j - pivot) s := by
+          simp [fixSplit, hge]
+        rw [e]
+        refine ⟨(curOk_add _ _ _ _ _).2 ((curOk_cons_succ _ _ _ _ _).2 ((curOk_cons_zero _ _ _ _).2 ?_)),
+          ahead_eq_of_flat hf ?_⟩
+        · simp only [List.length_drop]; omega
+        · simp only [toFlat, flatIdx, ns', offs_add, offs_mid, offs_cons_succ, offs_zero, List.length_take]
+          congr 1; omega
+      · have e : fixSplit pre.length true (.at pre.length j s) = .at pre.length j s := by
+          simp [fixSplit, hge]
+        rw [e]
+        refine ⟨(curOk_mid _ _ _ _ _).2 ?_, ahead_eq_of_flat hf ?_⟩
+        · simp only [List.length_take]; omega
+        · simp only [toFlat, flatIdx, ns', offs_mid]
+    · have e : fixSplit pre.length true (.at (pre.length + (m + 1)) j s) = .at (pre.length + (m + 1 + 1)) j s := by
+        simp only [fixSplit]; rw [if_neg (by omega), if_pos (by omega)]; rfl
+      rw [e]
+      refine ⟨(curOk_add _ _ _ _ _).2 ((curOk_cons_succ _ _ _ _ _).2 ((curOk_cons_succ _ _ _ _ _).2 hc)),
+        ahead_eq_of_flat hf ?_⟩
+      simp only [toFlat, flatIdx, ns', offs_add, offs_cons_succ, List.length_take, List.length_drop]
+      congr 1; omega
+
+/-- `fixRm`: slot `t.length` of node `pre.length` removed, the node keeps at least one record -/
+theorem fixRm_rel {P : K × V → Bool} {pre post : List (Node K V)} {lower : Node K V} {t u : List (K × V)} {x : K × V}
+    (e2 : lower.recs = t ++ x :: u) (hne : 1 ≤ (t ++ u).length) (hx : P x = false)
+    (hl : ∀ r ∈ flatten (pre ++ { lower with recs := t ++ u } :: post), P r = true) (p : CPos)
+    (hp : CurOk (pre ++ lower :: post) p) :
+    DelRel P (pre ++ lower :: post) (pre ++ { lower with recs := t ++ u } :: post)
+      p (fixRm pre.length t.length (t ++ u).length p) := by
+  have hf : flatten (pre ++ lower :: post) = (flatten pre ++ t) ++ x :: (u ++ flatten post) := by
+    rw [flatten_append, flatten_cons, e2]; simp only [List.append_assoc, List.cons_append]
+  have hf' : flatten (pre ++ { lower with recs := t ++ u } :: post) = (flatten pre ++ t) ++ (u ++ flatten post) := by
+    simp only [flatten_append, flatten_cons, List.append_assoc]
+  rw [hf'] at hl
+  have hlen : lower.recs.length = t.length + u.length + 1 := by
+    rw [e2]; simp only [List.length_append, List.length_cons]; omega
+  have hlen' : (t ++ u).length = t.length + u.length := List.length_append
+  cases p with
+  | head => exact delRel_pseudo hf hf' hx hl (fun _ _ _ h => by cases h)
+  | tail => exact delRel_pseudo hf hf' hx hl (fun _ _ _ h => by cases h)
+  | void => exact delRel_pseudo hf hf' hx hl (fun _ _ _ h => by cases h)
+  | «at» i j s =>
+    rcases regions hp with ⟨hi, hc, hlt⟩ | ⟨rfl, hj⟩ | ⟨m, rfl, hc⟩
+    · have e : fixRm pre.length t.length (t ++ u).length (.at i j s) = .at i j s := by
+        simp only [fixRm]; rw [if_neg (by omega)]
+      rw [e]
+      refine delRel_lt hf hf' hx hl ((curOk_left _ hi).2 hc) ?_ ?_
+      · simp only [flatIdx, offs_left (Nat.le_of_lt hi), List.length_append]; omega
+      · simp only [flatIdx, offs_left (Nat.le_of_lt hi)]
+    · rcases Nat.lt_trichotomy j t.length with hjt | hjt | hjt
+      · have e : fixRm pre.length t.length (t ++ u).length (.at pre.length j s) = .at pre.length j s := by
+          simp only [fixRm, if_true]; rw [if_neg (by omega), if_neg (by omega)]
+        rw [e]
+        refine delRel_lt hf hf' hx hl ((curOk_mid _ _ _ _ _).2 (by simp only [hlen']; omega)) ?_ ?_
+        · simp only [flatIdx, offs_mid, List.length_append]; omega
+        · simp only [flatIdx, offs_mid]
+      · subst hjt
+        by_cases hlast : t.length ≠ 0 ∧ t.length = (t ++ u).length
+        · have e : fixRm pre.length t.length (t ++ u).length (.at pre.length t.length s) =
+              .at pre.length (t.length - 1) (-1) := by
+            simp only [fixRm, if_true]; rw [if_pos hlast]
+          rw [e]
+          have hfi : flatIdx (pre ++ { lower with recs := t ++ u } :: post) pre.length (t.length - 1) + 1 =
+              (flatten pre ++ t).length := by
+            simp only [flatIdx, offs_mid, List.length_append]; omega
+          refine delRel_eq hf hf' hx hl ((curOk_mid _ _ _ _ _).2 (by simp only [hlen']; omega)) ?_ ?_ ?_
+          · simp only [flatIdx, offs_mid, List.length_append]
+          · simp only [aheadN, show ¬ ((-1 : Int) > 0) by omega, if_false, hfi]
+          · simp only [aheadP, show ((-1 : Int) < 0) by omega, if_true, hfi]
+        · have e : fixRm pre.length t.length (t ++ u).length (.at pre.length t.length s) =
+              .at pre.length t.length 1 := by
+            simp only [fixRm, if_true]; rw [if_neg hlast]
+          rw [e]
+          have hfi : flatIdx (pre ++ { lower with recs := t ++ u } :: post) pre.length t.length =
+              (flatten pre ++ t).length := by
+            simp only [flatIdx, offs_mid, List.length_append]
+          refine delRel_eq hf hf' hx hl ((curOk_mid _ _ _ _ _).2 ?_) ?_ ?_ ?_
+          · simp only [hlen'] at hlast hne ⊢; omega
+          · simp only [flatIdx, offs_mid, List.length_append]
+          · simp only [aheadN, show ((1 : Int) > 0) by omega, if_true, hfi]
+          · simp only [aheadP, show ¬ ((1 : Int) < 0) by omega, if_false, hfi]
+      · have e : fixRm pre.length t.length (t ++ u).length (.at pre.length j s) = .at pre.length (j - 1) s := by
+          simp only [fixRm, if_true]; rw [if_neg (by omega), if_pos (by omega)]
+        rw [e]
+        refine delRel_gt hf hf' hx hl ((curOk_mid _ _ _ _ _).2 (by simp only [hlen']; omega)) ?_ ?_
+        · simp only [flatIdx, offs_mid, List.length_append]; omega
+        · simp only [flatIdx, offs_mid]; omega
+    · have e : fixRm pre.length t.length (t ++ u).length (.at (pre.length + (m + 1)) j s) =
+          .at (pre.length + (m + 1)) j s := by
+        simp only [fixRm]; rw [if_neg (by omega)]
+      rw [e]
+      refine delRel_gt hf hf' hx hl ((curOk_add _ _ _ _ _).2 ((curOk_cons_succ _ _ _ _ _).2 hc)) ?_ ?_
+      · simp only [flatIdx, offs_add, offs_cons_succ, List.length_append, hlen]; omega
+      · simp only [flatIdx, offs_add, offs_cons_succ, hlen, hlen']; omega
+
 end
 end IwModel.Kv
